@@ -2,7 +2,7 @@
    the model in Model.v / Skeleton.v; Gen/C12.v is regenerated from /repo on every run. *)
 From Coq Require Import Relations.
 From Sdns Require Import Common.Base Gen.C12 C12.Model C12.Skeleton
-  C12.Proofs_ledger C12.Proofs_sig C12.Proofs_guard C12.Proofs_run C12.Proofs_skeleton C12.Proofs_reply C12.Proofs_query C12.Proofs_trace C12.Proofs_walk C12.ModelDS C12.Proofs_ds C12.ModelN3 C12.Proofs_n3 C12.Proofs_n3memo C12.Run.
+  C12.Proofs_ledger C12.Proofs_sig C12.Proofs_guard C12.Proofs_run C12.Proofs_skeleton C12.Proofs_reply C12.Proofs_query C12.Proofs_trace C12.Proofs_walk C12.ModelDS C12.Proofs_ds C12.ModelN3 C12.Proofs_n3 C12.Proofs_n3memo C12.Proofs_n3ring C12.Run.
 Open Scope N_scope.
 
 (* ---- translator ties: the kind sets the two dimension switches range over, the DNSSEC/network
@@ -501,6 +501,36 @@ Example nsec3_example :
    l_n3 l = 0 /\ vs = [NFail]) /\
   n3_shape_bound [p] = 5 /\ distinct (n3_ids [p; p]) = 5%nat /\ memo_cap = 64%nat.
 Proof. exact n3_example. Qed.
+
+(* ---- the record set itself (wave 9).  What a lookup of a name finds in the NSEC3 records of a response — which the model
+   used to be told by the driver — is computed by ModelN3.ring_look with the srcgen translations of the two functions the
+   evaluator uses: dnssec.aggressiveNSEC3Covers (bytes.Compare on the digests) and dnssec.typesSet (map-as-set).
+   nsec3_covers_is_interval_arithmetic: for digests of equal length whose elements are octets (20 each in the code:
+   decodeAggressiveNSEC3Hash, prepareNSEC3Set), the translated function is the interval test on the digests read as
+   big-endian numbers — a one-record ring covers everything but its owner, an ordinary interval is open on both sides,
+   the last interval wraps around; and the digests the model builds from the case's numbers satisfy the premise. *)
+Theorem nsec3_covers_is_interval_arithmetic : forall rr o n h, length o = length h -> length n = length h ->
+  octets o -> octets n -> octets h ->
+  go_aggressiveNSEC3Covers (mk_T_aggressiveNSEC3Entry rr o n) h = covers_spec (be o) (be n) (be h).
+Proof. exact gen_nsec3_covers. Qed.
+Print Assumptions nsec3_covers_is_interval_arithmetic.
+
+Theorem nsec3_ring_lookup_uses_the_interval_test : forall o n oo types h,
+  cov_code (o, n, oo, types) h =
+  covers_spec (be (bytes_of hash_octets o)) (be (bytes_of hash_octets n)) (be (bytes_of hash_octets h)).
+Proof. exact ring_covers_is_interval. Qed.
+Print Assumptions nsec3_ring_lookup_uses_the_interval_test.
+
+(* non-vacuity: a ring of three records (covered in the middle, covered by the wrap-around interval from both ends,
+   matched owners with their type facts through typesSet, an overlapping extra record makes the lookup ambiguous) *)
+Example nsec3_ring_example :
+  let ring := [(100, 200, false, [1; 46]); (200, 300, true, [2]); (300, 100, false, [2; 6; 46])] : list ringrec in
+  ring_look 1 ring 250 = (2, true, 0) /\ ring_look 1 ring 50 = (2, false, 0) /\ ring_look 1 ring 400 = (2, false, 0) /\
+  ring_look 1 ring 200 = (1, false, 4) /\ ring_look 1 ring 100 = (1, false, 1) /\ ring_look 1 ring 300 = (1, false, 6) /\
+  ring_look 1 ((150, 260, false, [1]) :: ring) 250 = (3, false, 0) /\
+  be (bytes_of hash_octets 281474976710655) = 281474976710655 /\
+  covers_spec 300 100 50 = true /\ covers_spec 100 200 200 = false.
+Proof. exact ring_example. Qed.
 
 (* ---- non-vacuity *)
 (* three threads, two debits each, cap 4: a schedule that interleaves loads and CASes; 4 accepted, 2 refused *)
